@@ -42,7 +42,7 @@ def reg_step(m, rnd, kind=None):
         m.gfuncs[name] = b
         return {"op": "reg_fn", "name": name, "beh": b.to_json()}
     if kind == "prefix":
-        name = rnd.choice(["-", "neg", "!", "AND", "twice"])
+        name = rnd.choice(["-", "neg", "!", "AND", "twice", "not", "OR", "+", "not"])
         m.tab.prefix.add(name)
         m.handlers[("prefix", name)] = b
         return {"op": "reg_prefix", "name": name, "beh": b.to_json()}
@@ -111,7 +111,8 @@ def use_program(m, rnd):
         name = rnd.choice(sorted(set(m.gfuncs) | {"min", "f", "nosuchfn", "costarring", "liquid", "macallums", "zinke", "tierAa"}))
         return ["fn", name, [n(3), n(1)]]
     if k == "builtin":
-        return rnd.choice([["bin", "+", n(1), n(2)], ["un", "-", n(3)], ["post", n(2), "++"], ["bin", "in", n(3), ["list", [n(3)]]], ["fn", "min", [n(3), n(4)]], ["fn", "max", [n(3), n(4)]],
+        return rnd.choice([["un", "not", ["bool", True]], ["un", "not", ["bin", "in", n(3), ["list", [n(3)]]]], ["un", "!", ["bool", False]], ["un", "AND", ["list", [["bool", True]]]], ["un", "OR", ["list", [["bool", False]]]], ["un", "+", n(2)],
+                           ["bin", "+", n(1), n(2)], ["un", "-", n(3)], ["post", n(2), "++"], ["bin", "in", n(3), ["list", [n(3)]]], ["fn", "min", [n(3), n(4)]], ["fn", "max", [n(3), n(4)]],
                            ["stmt", [["bin", "=", ["ref", "v"], n(5)], ["ref", "v"]]], ["bin", "==", n(1), n(1)], ["bin", "-", n(5), n(2)]])
     if k == "assign":
         return ["stmt", [["bin", "=", ["ref", "min"], n(7)], ["fn", "min", [n(3), n(4)]], ["ref", "min"]]]
